@@ -160,7 +160,8 @@ def _scan_order(ctx, ck, fn, loop, rules, infos, pats) -> None:
     if reg_cls is None:
         raise AnalysisError('anchor vanished: RuleRegistry')
     module = module_of(fn)
-    reg_names = [n for n, d in module.defs.items() if isinstance(d, (ast.Assign, ast.AnnAssign)) and d.value is not None and 'RuleRegistry' in ast.unparse(d.value)]
+    reg_names = [n for n, d in module.defs.items() if isinstance(d, (ast.Assign, ast.AnnAssign)) and d.value is not None and 'Registry' in ast.unparse(d.value)]
+    reg_cls = _registry_class(table, module) or reg_cls
     it = Interp(world, table, budget=400_000)
     try:
         registry = it.construct(reg_cls)
@@ -226,7 +227,8 @@ def _normal_form_by_execution(ctx, ck, rules, map_only: bool = False) -> bool:
     rank = import_order(world)
     binary.sort(key=lambda r: (rank.get(r.module.name, 10**6), r.node.lineno))
     rules_mod = module_of(fn)
-    reg_names = [n for n, d in rules_mod.defs.items() if isinstance(d, (ast.Assign, ast.AnnAssign)) and d.value is not None and 'RuleRegistry' in ast.unparse(d.value)]
+    reg_names = [n for n, d in rules_mod.defs.items() if isinstance(d, (ast.Assign, ast.AnnAssign)) and d.value is not None and 'Registry' in ast.unparse(d.value)]
+    reg_cls = _registry_class(table, rules_mod) or reg_cls
     small = AxArr(((frozenset({'s'}), 3),))
     big = AxArr(((frozenset({'b'}), 7),))
     out_fn = base.own.get('out_structure')
@@ -377,6 +379,22 @@ def _normal_form_by_execution(ctx, ck, rules, map_only: bool = False) -> bool:
                 ([itA, A], None),
                 ([G0, tiA, iA, G1], None),
             ]
+            # a selection next to its own lazy transpose cancels (unique indices); next to the transpose of another
+            # selection it does not - whatever pair of these classes was reduced before (the verdict on one pair says
+            # nothing about the next one)
+            idx_cls = table.by_name('IndexOperator')
+            if idx_cls is not None:
+                def sel(name):
+                    return Obj(idx_cls, {'indices': (slice(None),), 'unique_indices': True, '_in_structure': small, '_out_structure': small, '__out__': small, 'name': name})
+
+                P1, P2 = sel('P1'), sel('P2')
+                tP1 = tr(P1)
+                cases += [
+                    ([P1, tP1], []),
+                    ([P2, tP1], None),
+                    ([P1, tP1], []),
+                    ([G0, P2, tP1, G1], None),
+                ]
         for chain, want in cases:
             it.steps = 0
             del it.degraded[:]
@@ -414,6 +432,22 @@ def _normal_form_by_execution(ctx, ck, rules, map_only: bool = False) -> bool:
     return True
 
 
+def _registry_class(table, rules_mod):
+    """The class of the module-level binary-rule registry: the registry class (or a subclass of it) named in the expression the
+    registry is built from."""
+    base = table.find(f'{RULES}.RuleRegistry')
+    for n_, d in rules_mod.defs.items():
+        v = d.value if isinstance(d, (ast.Assign, ast.AnnAssign)) else None
+        if v is None or 'Registry' not in ast.unparse(v):
+            continue
+        for node in ast.walk(v):
+            if isinstance(node, ast.Name):
+                k = table.find(f'{rules_mod.name}.{node.id}')
+                if k is not None and base is not None and (k is base or table.is_subclass(k, base)):
+                    return k
+    return base
+
+
 def _driver_object(it, alg):
     """An instance of the driver class: through its constructor when it has one (called without arguments), else bare."""
     from ..axinterp import Obj, Raised, Undecided
@@ -444,7 +478,8 @@ def abstract_driver(ctx, rules):
     rank = import_order(world)
     binary.sort(key=lambda r: (rank.get(r.module.name, 10**6), r.node.lineno))
     rules_mod = module_of(fn)
-    reg_names = [n for n, d in rules_mod.defs.items() if isinstance(d, (ast.Assign, ast.AnnAssign)) and d.value is not None and 'RuleRegistry' in ast.unparse(d.value)]
+    reg_names = [n for n, d in rules_mod.defs.items() if isinstance(d, (ast.Assign, ast.AnnAssign)) and d.value is not None and 'Registry' in ast.unparse(d.value)]
+    reg_cls = _registry_class(table, rules_mod) or reg_cls
     out_fn = base.own.get('out_structure')
     it = Interp(world, table, budget=200_000)
     it.symbolic = True
